@@ -799,6 +799,8 @@ def _constant(ins, attrs, ctx):
         return [const(np.array(attrs["value_float"], dtype=np.float32))]
     if "value_floats" in attrs:
         return [const(np.array(list(attrs["value_floats"]), dtype=np.float32))]
+    if not any(k in attrs for k in ("value", "value_int", "value_ints", "value_float", "value_floats", "value_string", "value_strings", "sparse_value")):
+        raise Bottom("Constant without a value attribute")
     raise NotEncoded("Constant form")
 
 
